@@ -330,6 +330,14 @@ func (p *Program) classifyErrValue(v ssa.Value, b *ssa.BasicBlock, depth int) re
 	switch x := v.(type) {
 	case *ssa.MakeInterface:
 		return retError // concrete value boxed into error: non-nil interface
+	case *ssa.UnOp:
+		// load of a package-level error variable (sentinel such as
+		// ErrWalletShuttingDown): initialised non-nil and never reassigned
+		if x.Op == token.MUL {
+			if _, ok := x.X.(*ssa.Global); ok {
+				return retError
+			}
+		}
 	case *ssa.Phi:
 		if depth > 6 {
 			return retMaybe
